@@ -1,3 +1,5 @@
+import MosdnsVerif.Base.Go
+
 /-! Model of the hand-off of one reply between the connection reader and the
 caller of `exchange` (C02), for the pipelined/UDP connection
 (`TraditionalDnsConn`) and the reused connection (`reusableConn`).
@@ -5,13 +7,20 @@ caller of `exchange` (C02), for the pipelined/UDP connection
 One outstanding query; labels are the steps the reader, the caller, the peer
 and the clock can take; any label sequence whose steps are enabled is a
 schedule. Parameters (regenerated facts): the capacity of the per-query reply
-channel and whether the caller's final `select` looks at the reply channel
-before honouring the close notification. -/
+channel, whether the caller's final `select` looks at the reply channel
+before honouring the close notification, and whether the context that select
+waits on is the caller's own (handed on unchanged by every layer above it).
+
+`Model.C02.Doh` (below) is the DoH counterpart of "the reply was received":
+the HTTP response body reaches the client as an arbitrary sequence of pieces. -/
 namespace Model.C02
 
 structure Cfg where
   cap : Nat            -- capacity of the reply channel (`make(chan *[]byte, cap)`)
   drainFirst : Bool    -- on closeNotify the caller first tries a non-blocking receive
+  ownCtx : Bool        -- every layer between the caller and the final select (transport, lazy connection,
+                       -- reserved exchanger) hands the caller's context on unchanged; `false`: some layer waits
+                       -- on a context of its own making, which can end while the caller's has not
   deriving DecidableEq, Repr
 
 inductive Phase where
@@ -24,7 +33,8 @@ structure St where
   phase : Phase := .sending
   buffered : Bool := false    -- a reply sits in the channel
   closed : Bool := false      -- closeNotify is closed
-  ctxDone : Bool := false
+  ctxDone : Bool := false     -- the caller's context ended
+  innerDone : Bool := false   -- a context substituted by a layer below the caller ended (only if `!ownCtx`)
   -- ghosts
   arrived : Bool := false     -- the reader read the reply from the connection (before the deadline)
   dropped : Bool := false     -- ... and released it because the hand-off did not succeed
@@ -36,9 +46,10 @@ inductive Label where
   | writeReturns      -- the caller's Write returns; it proceeds to the final select
   | pickReply | pickClose | pickCtx   -- the final select takes a ready case
   | ctxExpire
+  | innerExpire       -- a substituted context's own timer fires
   deriving DecidableEq, Repr
 
-def Label.all : List Label := [.readerDeliver, .readerClose, .writeReturns, .pickReply, .pickClose, .pickCtx, .ctxExpire]
+def Label.all : List Label := [.readerDeliver, .readerClose, .writeReturns, .pickReply, .pickClose, .pickCtx, .ctxExpire, .innerExpire]
 
 def step (c : Cfg) (s : St) : Label → Option St
   | .readerDeliver =>
@@ -59,8 +70,9 @@ def step (c : Cfg) (s : St) : Label → Option St
       if c.drainFirst && s.buffered then some { s with phase := .gotReply, buffered := false }
       else some { s with phase := .gotCloseErr }
     else none
-  | .pickCtx => if s.phase == .waiting && s.ctxDone then some { s with phase := .gotCtxErr } else none
+  | .pickCtx => if s.phase == .waiting && (s.ctxDone || s.innerDone) then some { s with phase := .gotCtxErr } else none
   | .ctxExpire => if s.ctxDone then none else some { s with ctxDone := true }
+  | .innerExpire => if c.ownCtx || s.innerDone then none else some { s with innerDone := true }
 
 def run (c : Cfg) : St → List Label → Option St
   | s, [] => some s
@@ -68,9 +80,9 @@ def run (c : Cfg) : St → List Label → Option St
     | none => none
     | some s' => run c s' ls
 
-/-- Invariant for cap ≥ 1 and drainFirst. -/
+/-- Invariant for cap ≥ 1, drainFirst and ownCtx. -/
 def inv (s : St) : Bool :=
-  !s.dropped &&
+  !s.dropped && !s.innerDone &&
   (!s.arrived || s.buffered || s.phase == .gotReply) &&
   (!s.buffered || s.arrived) &&
   (!(s.phase == .gotCloseErr) || (!s.arrived && s.closed)) &&
@@ -88,3 +100,43 @@ def good (s : St) : Bool :=
   (!(s.phase == .waiting && s.arrived) || s.buffered)
 
 end Model.C02
+
+/-! ## DoH: the reply is the body of the HTTP response
+
+`resp.Body` is an `io.Reader`: every `Read` returns the next piece of the body
+(whatever has arrived: one TCP segment / TLS record / h2 or h3 DATA frame, or
+part of it), then EOF. A `Go.Stream` is the list of those pieces; every
+chunking of the same bytes is a possible body. `doh.(*Upstream).exchange`
+reads it with `bb.ReadFrom(io.LimitReader(resp.Body, dns.MaxMsgSize))`. -/
+namespace Model.C02.Doh
+
+/-- `bytes.Buffer.ReadFrom(io.LimitReader(body, lim))`: `Read` is called until EOF; a call returns (a prefix
+of) the next piece, capped by what is left of the limit; with nothing left the limited reader reports EOF. -/
+def readToEOF : Go.Stream → Nat → Bytes → Bytes
+  | [], _, acc => acc
+  | chunk :: rest, lim, acc =>
+    if lim = 0 then acc
+    else if chunk.length ≤ lim then readToEOF rest (lim - chunk.length) (acc ++ chunk)
+    else acc ++ chunk.take lim
+
+/-- What a single `Read` into a buffer of `n` bytes returns. -/
+def singleRead : Go.Stream → Nat → Bytes
+  | [], _ => []
+  | chunk :: _, n => chunk.take n
+
+inductive Res where
+  | reply (m : Bytes)
+  | tooSmall            -- dnsutils.ErrPayloadTooSmall
+  deriving DecidableEq, Repr
+
+def maxMsgSize : Nat := 65535
+def headerLen : Nat := 12
+
+/-- `exchange` followed by the id restoration of `ExchangeContext` (`binary.BigEndian.PutUint16(*r, id of q)`),
+for a 200 response whose body arrives as `body`. `toEOF` is the regenerated fact "the body is read until EOF";
+`false` stands for a reader that takes what one `Read` call returns. `qid`: the two id bytes of the caller's query. -/
+def exchange (toEOF : Bool) (qid : Bytes) (body : Go.Stream) : Res :=
+  let b := if toEOF then readToEOF body maxMsgSize [] else singleRead body maxMsgSize
+  if b.length < headerLen then .tooSmall else .reply (qid ++ b.drop 2)
+
+end Model.C02.Doh
